@@ -377,11 +377,14 @@ func runC10(c *mon.Ctx) {
 					c.Violation("read-fault-swallowed", fmt.Sprintf("source failed with a non-EOF error at byte offset %d of %d (payload of %d bytes starts at %d) but ReadFrom returned nil error (value with %d tracks)", k, len(b), n, start, nt), in, "error", "nil")
 				}
 			}
-			for mode := 0; mode < 4; mode++ {
-				short := mode == 1 || mode == 3
+			for mode := 0; mode < 5; mode++ {
+				short := mode == 1 || mode >= 3
 				w := &faultWriter{limit: k, short: short, oneShot: mode >= 2}
 				if mode == 3 {
 					w.err = io.ErrShortWrite
+				}
+				if mode == 4 {
+					w.noErr = true // fewer bytes taken than offered, no error at all
 				}
 				_, err := s.WriteTo(w)
 				c.Count("write_faults_injected", 1)
